@@ -21,6 +21,14 @@ let result_of_code = function
 let code r = tok_of_n (result_code r)
 
 let eval inp obs =
+  (* VN<mask>: bit 1 = Checkers.Basiccheck nil, bit 2 = Checkers.Parentscheck nil (both are empty
+     structs whose methods never touch the receiver: same answers), bit 4 = the Reader returns nil
+     validators (model: validate_opt ... None; code 12 = the nil dereference) *)
+  let mask, inp = (match inp with
+    | t :: rest when String.length t > 2 && String.sub t 0 2 = "VN" ->
+      int_of_string (String.sub t 2 (String.length t - 2)), "V" :: rest
+    | _ -> 0, inp) in
+  let nilvals = mask land 4 <> 0 in
   match inp with
   | "V" :: rest ->
     let q = ref rest in
@@ -44,12 +52,17 @@ let eval inp obs =
     let e = { e_epoch = epoch; e_seq = seq; e_frame = frame; e_creator = creator;
               e_lamport = lamport; e_parents = ids } in
     let m_all = validate cur vals e ps in
-    let model_obs = [code m_all; code (basic_validate e); code (epoch_validate cur vals e);
-                     code (parents_validate e ps)] in
+    let ocode = function Some r -> code r | None -> "12" in
+    let model_obs =
+      if nilvals then [ocode (validate_opt cur None e ps); code (basic_validate e);
+                       ocode (epoch_validate_opt cur None e); code (parents_validate e ps)]
+      else [code m_all; code (basic_validate e); code (epoch_validate cur vals e);
+            code (parents_validate e ps)] in
     let consistent = (List.map (fun p -> p.p_id) ps = ids) in
     let spec_on r =
+      if nilvals then None else   (* outside the Reader's contract: model comparison only *)
       Some (answer_ok_gen cur vals e ps r && (if consistent then answer_ok cur vals e ps r else true)) in
-    let spec_ok = (match obs with
+    let spec_ok = if nilvals then None else (match obs with
       | a :: _ -> (match result_of_code a with
                    | Some r -> spec_on r
                    | None -> Some false)
